@@ -114,9 +114,20 @@ class Node(object):
                                     self.text()[:50])
 
 
+# calls that cannot raise for any argument (builtins used as guards, logging)
+TOTAL_CALLS = frozenset(['isinstance', 'hasattr', 'callable', 'id', 'type',
+                         'functools.partial', 'partial', 'time.time',
+                         'logger.debug', 'logger.info', 'logger.warning',
+                         'logger.warn', 'logger.error', 'logger.exception'])
+
+
 def default_may_raise(node):
     for n in node.walk():
-        if isinstance(n, (ast.Call, ast.Raise, ast.Yield, ast.YieldFrom,
+        if isinstance(n, ast.Call):
+            if (dotted(n.func) or '') in TOTAL_CALLS:
+                continue
+            return True
+        if isinstance(n, (ast.Raise, ast.Yield, ast.YieldFrom,
                           ast.Await, ast.Delete)):
             return True
         if isinstance(n, ast.Subscript) and isinstance(n.ctx, ast.Load):
